@@ -440,16 +440,26 @@ def types_battery():
         {"vars": [["d", ["red", "green", "blue", "green"]], ["d", [["a"], ("b", 1), None]], ["c", -1.0, 1.0]], "obj": [{"fam": "abs", "p": {"shift": 0.5}}]},
         {"vars": [["p", ["x", 3, 2.5, "y", 7]]], "obj": [{"fam": "assign", "p": {"wseed": 5}}], "ret": "np64"},
         {"vars": [["cm", [-4.0, -4.0, -4.0], [4.0, 4.0, 4.0]]], "obj": [{"fam": "sphere", "p": {"shift": 0.3, "offset": -50.0}}], "ret": "int"},  # all negative
+        {"vars": [["cm", [-6.0, -6.0], [6.0, 6.0]]], "obj": [{"fam": "sphere", "p": {"shift": 0.3}}], "mutate": True},                 # objective edits its argument
+        {"vars": [["d", [3, 5, 7, 11]], ["c", -2.0, 2.0], ["b", 2]], "obj": [{"fam": "abs", "p": {"shift": 0.5}}], "mutate": True},
+        {"vars": [["b", 40]], "obj": [{"fam": "abs", "p": {"shift": 0.0}}]},                                                           # 40 binary coordinates
+        {"vars": [["dm", [[0, 1, 2]] * 36]], "obj": [{"fam": "abs", "p": {"shift": 1.0}}]},                                            # 36 discrete children
+        {"vars": [["cs", 0.0, 10.0, 0.25], ["cs", -1.0, 1.0, 0.125], ["cs", 5.0, 6.0, 0.5]], "obj": [{"fam": "sphere", "p": {"shift": 0.3}}]},  # user subclass
+        {"vars": [["cm", [-3.0, -3.0, -3.0], [3.0, 3.0, 3.0]]], "obj": [{"fam": "sphere", "p": {"shift": 0.3}}], "ret": "np0d", "force": "min"},  # 0-d array
+        {"vars": [["cm", [1.0, 1.0, 1.0, 1.0], [1.0 + 1e-12] * 4]], "obj": [{"fam": "sphere", "p": {"shift": 0.3}}]},                   # all bounds 1e-12 wide
+        {"vars": [["cm", [-10.0, -10.0, -10.0], [10.0, 10.0, 10.0]]], "obj": [{"fam": "linear", "p": {"scale": 300.0, "offset": -2000.0}}]},   # mixed sign, large negative
     ]
     out = []
     for a, opt in enumerate(opt_names()):
         base = dict(base_configs()[opt])
         for t, task in enumerate(tasks_):
-            minmax = ("min", "max")[(a + t) % 2]
+            minmax = task.get("force") or ("min", "max")[(a + t) % 2]
             cfg = dict(base, fitness_error=(None, 0.5)[t % 2], max_cycles=(6, 12)[t % 2])
             spec = {"vars": task["vars"], "obj": task["obj"], "weights": None, "minmax": minmax, "seed": 4000000 + 100 * a + t}
             if task.get("ret"):
                 spec["ret"] = task["ret"]
+            if task.get("mutate"):
+                spec["mutate"] = True
             out.append({"i": f"y{len(out)}", "opt": opt, "cfg": cfg, "cfg_class": "types", "spec": spec, "mode": "serial", "workers": None})
     _TYPES = out
     return out
